@@ -23,5 +23,6 @@ def main (args : List String) : IO UInt32 := do
   | ["cssabbr"] => Drv.CssAbbr.main; return 0
   | ["style"] => Drv.Style.main; return 0
   | ["expandg"] => Drv.ExpandG.main; return 0
+  | ["resolve"] => Drv.ExpandG.mainResolve; return 0
   | ["selfcheck"] => IO.println s!"C06.keyOrderAgrees {EmmetProps.keyOrderAgrees}"; return 0
   | _ => IO.eprintln "usage: driver <mode>"; return 2
